@@ -38,6 +38,8 @@ def canon(v, _depth=0) -> str:  # noqa: C901, PLR0911, PLR0912
         return "l[" + ",".join(canon(x, _depth + 1) for x in v) + "]"
     if t is tuple:
         return "t(" + ",".join(canon(x, _depth + 1) for x in v) + ")"
+    if t in (set, frozenset):
+        return "S{" + ",".join(sorted(canon(x, _depth + 1) for x in v)) + "}"
     if t is dict:
         items = sorted((canon(k, _depth + 1), canon(x, _depth + 1)) for k, x in v.items())
         return "m{" + ",".join("%s=%s" % kv for kv in items) + "}"
